@@ -548,6 +548,13 @@ func (x *xl) insertAfter(c *astutil.Cursor, ws []ast.Stmt, pos token.Pos) {
 	if len(ws) == 0 {
 		return
 	}
+	if _, isFor := c.Parent().(*ast.ForStmt); isFor && c.Name() == "Post" {
+		// a post statement must stay one simple statement: func() { i++; W(&i) }()
+		st := c.Node().(ast.Stmt)
+		body := &ast.BlockStmt{List: append([]ast.Stmt{st}, ws...)}
+		c.Replace(&ast.ExprStmt{X: &ast.CallExpr{Fun: &ast.FuncLit{Type: &ast.FuncType{Params: &ast.FieldList{}}, Body: body}}})
+		return
+	}
 	if c.Index() < 0 {
 		x.rep.Untracked = append(x.rep.Untracked, fmt.Sprintf("%s: write in a statement header (if/for/switch init or post)", x.site(pos)))
 		return
@@ -675,6 +682,9 @@ func (x *xl) selectStmt(n *ast.SelectStmt) ast.Stmt {
 	def := "false"
 	if hasDefault {
 		def = "true"
+	} else {
+		// keeps the switch a terminating statement whenever the select was one
+		clauses = append(clauses, &ast.CaseClause{List: nil, Body: []ast.Stmt{&ast.ExprStmt{X: call(ast.NewIdent("panic"), lit("chansim: select returned an impossible case index"))}}})
 	}
 	args := append([]ast.Expr{ast.NewIdent(def)}, cases...)
 	stmts := append([]ast.Stmt{}, pre...)
